@@ -62,6 +62,17 @@ def done_summary(P, path, memo, stack=()):
     return memo[path]
 
 
+def returned_locals(g):
+    out = {0}
+    for b in g.blocks:
+        for st in b["stmts"]:
+            if st["s"] == "assign" and st["place"]["l"] == 0 and not st["place"]["p"] and st["rv"]["k"] == "use":
+                q = M.op_place(st["rv"]["a"])
+                if q is not None and not q["p"]:
+                    out.add(q["l"])
+    return out
+
+
 def run(ctx, res):
     P = ctx.P
     f = P.require_fn("nrepl::eval_code_in_namespace")
@@ -78,11 +89,21 @@ def run(ctx, res):
     joins = one("JoinHandle::<T>::join")
     flushes = one("nrepl::flush_output_buffer")
 
-    def arg_local(t, i):
-        r = f.root_of(t["args"][i])
-        return f.local_name(r[1]["l"]) if r[0] == "place" else None
-    fl_out = [bi for bi, t in flushes if bi in after and arg_local(t, 0) == "stdout_buf"]
-    fl_err = [bi for bi, t in flushes if bi in after and arg_local(t, 0) == "stderr_buf"]
+    def key_of(t):
+        """the message key the flush is made for: b"out" / b"err" (second argument, a byte-string constant)."""
+        r = f.root_of(t["args"][1], through_named=True)
+        c = None
+        if r[0] == "const":
+            c = r[1].get("s") or r[1].get("text")
+        elif r[0] == "place":
+            dd = [d for d in f.defs.get(r[1]["l"], []) if d[1] != "term" and d[2]["rv"]["k"] == "use"]
+            if dd:
+                c0 = M.op_const(dd[0][2]["rv"]["a"])
+                if c0:
+                    c = c0.get("s") or c0.get("text")
+        return str(c).strip('b"') if c else None
+    fl_out = [bi for bi, t in flushes if bi in after and key_of(t) == "out"]
+    fl_err = [bi for bi, t in flushes if bi in after and key_of(t) == "err"]
     chain = [("drop(flush_stop_tx)", [b for b, _ in drops if b in after]), ("flusher.join()", [b for b, _ in joins if b in after]),
              ("flush(stdout)", fl_out), ("flush(stderr)", fl_err)]
     prev_name, prev_bb = "eval_toplevel_exprs_then_stop", E
@@ -184,7 +205,8 @@ def run(ctx, res):
             n = M.callee_name(t) or ""
             if (n.endswith("Vec::<T, A>::push") or n.endswith("::extend")) and t["args"]:
                 r = g.root_of(t["args"][0])
-                if r[0] == "place" and g.local_name(r[1]["l"]) == "responses":
+                # the vector of responses the handler returns (the local moved into the return place)
+                if r[0] == "place" and r[1]["l"] in returned_locals(g):
                     pushes.append(bi)
         bad = False
         for b in done_blocks(g):
